@@ -79,6 +79,8 @@ var registry = map[string]checker{}
 
 func register(id string, f checker) { registry[id] = f }
 
+var verifDir = "/verif"
+
 func main() {
 	prop := flag.String("property", "", "property id (C01..C20) or all")
 	tier := flag.String("tier", "", "quick|thorough")
@@ -88,6 +90,7 @@ func main() {
 	dump := flag.String("dump", "", "debug: dump SSA of function spec")
 	tags := flag.String("tags", "", "debug: build tags for -dump")
 	emit := flag.Bool("emit", false, "debug: print the raw emission sites per mode")
+	snapshot := flag.String("snapshot", "", "maintenance: record the declared objects of the tree as anchors.json (argument: commit id)")
 	flag.Parse()
 	if *repo != "" {
 		repoDir = *repo
@@ -108,6 +111,14 @@ func main() {
 				vdir = d
 			}
 		}
+	}
+	verifDir = vdir
+	if *snapshot != "" {
+		if err := writeAnchorSnapshot(*snapshot); err != nil {
+			fmt.Fprintln(os.Stderr, err)
+			os.Exit(2)
+		}
+		return
 	}
 	if *emit {
 		p, err := Load(*tags, nil)
